@@ -289,6 +289,7 @@ struct xf {
     int limit;      /* max sites to change (0 = all) */
     int skip;       /* sites to skip first */
     int depth;
+    const char *name;   /* kind=nullnamed: the member to take away */
 };
 static unsigned xrnd(struct xf *x) {
     x->seed = x->seed * 1103515245u + 12345u;
@@ -314,6 +315,13 @@ static void walk_member(asn_TYPE_descriptor_t *td, void *sptr, asn_TYPE_member_t
                 el->default_value_set(pp);
                 lib_end();
             }
+            return;
+        }
+        if(!strcmp(x->kind, "nullnamed") && x->name && !strcmp(el->name, x->name) && xf_take(x)) {
+            /* the member of that name, held by pointer, forcibly absent -- whatever the descriptor says about it:
+             * the caller knows from the specification whether it is mandatory */
+            ASN_STRUCT_FREE(*el->type, *pp);
+            *pp = 0;
             return;
         }
         if(!strcmp(x->kind, "nullptr") && !el->optional && xf_take(x)) {
@@ -1110,6 +1118,7 @@ int main(int argc, char **argv) {
             x.seed = (unsigned)argl(kv, n, "seed", 1);
             x.limit = (int)argl(kv, n, "limit", 0);
             x.skip = (int)argl(kv, n, "skip", 0);
+            x.name = arg(kv, n, "name");
             if(s < 0 || s >= NSLOTS || !slots[s].td || !slots[s].ptr || !x.kind) { fprintf(o, "R xf error=bad\n"); continue; }
             walk(slots[s].td, slots[s].ptr, &x);
             fprintf(o, "R xf kind=%s count=%d\n", x.kind, x.count);
